@@ -346,6 +346,19 @@ Proof. split; [discriminate|reflexivity]. Qed.
 (** Non-vacuity of [cancel_bounded]'s hypotheses and of a non-trivial scan. *)
 Example scan_ex :
   let cfg := {| c_cap := 0; c_max := 0%N |} in
-  let st := fst (fst (exec_spec cfg (fst (fst (exec_spec cfg spec_init (Add [97%N] (-50)%Z 0%N 0%N))) (Add [97%N] (-5)%Z 1%N 0%N))) in
+  let st := fst (fst (exec_spec cfg (fst (fst (exec_spec cfg spec_init (Add [97%N] (-50)%Z 0%N 0%N)))) (Add [97%N] (-5)%Z 1%N 0%N))) in
   map e_k (live (do_scan cfg 0%Z 10%Z [[97%N]] st)) = [1].
 Proof. reflexivity. Qed.
+
+(** Not proved (kept visible; NOT_PROVED in lib/props/c12.py): under interleaving with other
+    clients that only deliver mail younger than the cutoff (monotone clock), a scan that runs
+    to completion leaves no message that was expired when it started, in any mailbox of the
+    walk. Exercised by the racing correspondence stream (oracle check "expired-survived"). *)
+Definition young_adds (cutoff : Z) (evs : list ev) : Prop :=
+  forall mb date tag size, In (EOp (Add mb date tag size)) evs -> (cutoff <= date)%Z.
+Definition expired_gone_unless_aborted_stmt : Prop :=
+  forall cfg cutoff order st evs,
+    SInv st -> young_adds cutoff evs ->
+    s_phase (run cfg cutoff (sys_init order st) evs) = PDone false ->
+    forall e, In e (live st) -> expired cutoff (e_msg e) = true -> In (e_mb e) order ->
+    forall e', In e' (live (s_st (run cfg cutoff (sys_init order st) evs))) -> ~ (e_mb e' = e_mb e /\ e_k e' = e_k e).
